@@ -96,6 +96,7 @@ type SpecFunc struct {
 	Body     ast.Expr
 	Src      string
 	BVOnly   bool
+	RecvTParams []string // names of the receiver's type parameters in the header
 	Trig     bool // applied as an uninterpreted function with a triggered definitional axiom
 	Rec      bool // recursive: kept uninterpreted, body given as axiom
 	File     string
@@ -544,6 +545,7 @@ func (sp *Specs) ParseSpecText(lines []specLine, file, pkgPath string) error {
 			sf.Name = fd.Name.Name
 			if fd.Recv != nil && len(fd.Recv.List) > 0 {
 				n, _ := recvTypeName(fd.Recv.List[0].Type)
+				sf.RecvTParams = recvTypeParams(fd.Recv.List[0].Type)
 				key = pkgPath + ".(" + n + ")." + fd.Name.Name
 				if len(fd.Recv.List[0].Names) > 0 {
 					sf.RecvName = fd.Recv.List[0].Names[0].Name
@@ -813,4 +815,28 @@ func LoadSpecs(repo string, overlay map[string][]byte, verifDir string) (*Specs,
 		sp.Files = append(sp.Files, f)
 	}
 	return sp, nil
+}
+
+// recvTypeParams extracts the type parameter names of a receiver type
+// expression such as *Map[K, V].
+func recvTypeParams(e ast.Expr) []string {
+	switch t := e.(type) {
+	case *ast.StarExpr:
+		return recvTypeParams(t.X)
+	case *ast.ParenExpr:
+		return recvTypeParams(t.X)
+	case *ast.IndexExpr:
+		if id, ok := t.Index.(*ast.Ident); ok {
+			return []string{id.Name}
+		}
+	case *ast.IndexListExpr:
+		var out []string
+		for _, ix := range t.Indices {
+			if id, ok := ix.(*ast.Ident); ok {
+				out = append(out, id.Name)
+			}
+		}
+		return out
+	}
+	return nil
 }
